@@ -38,10 +38,10 @@ META = {
         ref="DESIGN.md §4 C12",
     ),
     "C15": dict(
-        technique="producer/consumer table agreement: skip set extracted from the graph walk vs seeded context keys and lookup forms of routine constructors; totality of dispatch paths",
-        text="Partial: every legal annotation the graph skips (typing.Any) is seeded with a pass-through routine in both factories' contexts (or all type-argument lookups are tolerant); unresolvable/None rows are routed, dispatch is total with an unconditional fallback, TypeVars are normalised, empty graphs and unknown field types fall back to no-ops. Error-freeness for the whole annotation grammar (unhashable annotations, Ellipsis revisits) is not decided.",
-        note="constants.empty is treated as a sentinel, not a legal type argument.",
-        ref="DESIGN.md §4 C15",
+        technique="abstract evaluation of both dispatch tables and of the graph walk's leaf/cut guards on descriptors of the grammar's special forms (TypeVar, type[X], parameterised Callable, Ellipsis, tuple[()]); producer/consumer table agreement (graph skip set vs seeded context keys, constructor arity vs routed forms); type-flow rule in refs.forwardref; totality of dispatch paths",
+        text="Partial: no dispatch predicate raises on a form of the grammar before a row takes it (PredEval with origin() interpreted from source, 10 forms x 2 tables); routine constructors unpack no more type arguments than the forms routed to them have; annotations whose arguments are not annotations are leaves of the graph walk; a non-string reference never reaches the string-splitting module resolver; every legal annotation the graph skips (typing.Any) is seeded with a pass-through routine (or lookups are tolerant); unresolvable/None rows are routed, dispatch ends in an unconditional fallback, TypeVars are normalised, empty graphs and unknown field types fall back to no-ops. Error-freeness for every annotation to depth 3 and repeatability after cache clearing are not decided.",
+        note="constants.empty is treated as a sentinel, not a legal type argument. Four genuine defects found by R15.4-R15.6 were repaired (fix: commits 1ba9f66, ef70579, a8a3446, 66ac1a8).",
+        ref="DESIGN.md §4 C15, §5 repairs 21-24",
     ),
     "C16": dict(
         technique="dominance/path rules over the 20-line dict subclass (lookup order, recursion guard, handler coverage, memo write shape, absence of shadowing hooks)",
